@@ -389,7 +389,9 @@ where
         }
         // check the eventually properties
         for (i, property) in properties.iter().enumerate() {
-            if ebits.contains(i) {
+            // Once a discovery exists the bits are no longer maintained along the trace (see
+            // above), so they say nothing about this trace: keep the existing discovery.
+            if ebits.contains(i) && !discoveries.contains_key(property.name) {
                 // Races other threads, but that's fine.
                 discoveries.insert(property.name, fingerprint_path.clone());
             }
